@@ -36,33 +36,6 @@ func newTransport(keyIdx int, claimed p2p.ID, name string) *p2p.MultiplexTranspo
 	return mt
 }
 
-func tcpPair() (net.Conn, net.Conn, error) {
-	ln, err := net.Listen("tcp", "127.0.0.1:0")
-	if err != nil {
-		return nil, nil, err
-	}
-	defer ln.Close()
-	type acc struct {
-		c   net.Conn
-		err error
-	}
-	ch := make(chan acc, 1)
-	go func() {
-		c, err := ln.Accept()
-		ch <- acc{c, err}
-	}()
-	c1, err := net.Dial("tcp", ln.Addr().String())
-	if err != nil {
-		return nil, nil, err
-	}
-	a := <-ch
-	if a.err != nil {
-		c1.Close()
-		return nil, nil, a.err
-	}
-	return c1, a.c, nil
-}
-
 func TestTransportUpgrade(t *testing.T) {
 	rapid.Check(t, func(t *rapid.T) {
 		T := rapid.IntRange(0, 7).Draw(t, "T")                    // the honest node
@@ -86,17 +59,16 @@ func TestTransportUpgrade(t *testing.T) {
 			ev.Sample("transport", text)
 		}
 
-		c1, c2, err := tcpPair()
-		if err != nil {
-			t.Fatalf("harness: no loopback TCP: %v", err)
-		}
+		// an in-memory connection (deadlines supported); the transport never looks at the addresses during upgrade
+		c1, c2 := net.Pipe()
 		defer c1.Close()
 		defer c2.Close()
 		mtT := newTransport(T, idOf(T), "honest")
 		mtP := newTransport(peerKey, claimed, "peer")
 		var dialAddr *p2p.NetAddress
 		if dialed {
-			dialAddr = p2p.NewNetAddress(idOf(V), c1.RemoteAddr())
+			dialAddr = p2p.NewNetAddressIPPort(net.IPv4(127, 0, 0, 1), 26656)
+			dialAddr.ID = idOf(V)
 		}
 		var mu sync.Mutex
 		var pp *productPanic
